@@ -5,7 +5,7 @@ import ast
 
 import z3
 
-from .pyvc import (OpaqueFn, Engine, Sym, SInt, SBool, SOpt, STruth, SFloatQuot, SRef, SOptRef, SSeq, SBytes, SStr, Closure,
+from .pyvc import (StrSort, OpaqueFn, Engine, Sym, SInt, SBool, SOpt, STruth, SFloatQuot, SRef, SOptRef, SSeq, SBytes, SStr, Closure,
                    BoundMethod, ClassInfo, Env, OutOfSubset, PathEnd, PyRaise, _Return, _Break, _Continue, Ref,
                    load_module)
 
@@ -281,6 +281,9 @@ class Interp(Engine):
             return self.concrete_binop(op, a, b)
         if isinstance(a, (SBytes, bytes)) or isinstance(b, (SBytes, bytes)):
             return self.bytes_binop(op, a, b)
+        if isinstance(a, (SStr, str)) and isinstance(b, (SStr, str)) and isinstance(op, ast.Add):
+            cat = z3.Function('strcat', StrSort, StrSort, StrSort)
+            return SStr(cat(self.as_str(a), self.as_str(b)))
         if isinstance(a, (list, tuple)) or isinstance(b, (list, tuple)):
             if isinstance(op, ast.Add) and type(a) is type(b):
                 return a + b
